@@ -496,6 +496,20 @@ func c12Run(c c12Case) (sig string, err error) {
 			return "batch-accepts-wrong-counts", fmt.Errorf("Batch succeeded with %d items (header delta %d) for %d requests", len(rp.Items), rp.HeaderCount, nreq)
 		}
 		if berr != nil {
+			// the counts are wrong (a server that rejects a request as a whole answers with ONE failed item, whatever the
+			// number of request items): the call fails, and what the failed items say is still in the error
+			if reqTree, perr := ttlvref.Parse(srv.Requests[len(srv.Requests)-1], ttlvref.Lenient); perr == nil && len(srv.Requests) > 0 {
+				var rm kmip.ResponseMessage
+				if safely(func() error { return ttlv.UnmarshalTTLV(buildResponse(rp, reqTree), &rm) }) == nil {
+					for i, ip := range rp.Items {
+						if ip.Status == 1 {
+							if s := checkErrorCarries(berr, ip); s != "" {
+								return "batch-error-" + s, fmt.Errorf("Batch() = %v does not carry failed item %d %+v of a response with %d items (header delta %d) for %d requests", berr, i, ip, len(rp.Items), rp.HeaderCount, nreq)
+							}
+						}
+					}
+				}
+			}
 			return "", nil
 		}
 		var uerr error
@@ -587,9 +601,14 @@ func c12Run(c c12Case) (sig string, err error) {
 			decodable = safely(func() error { return ttlv.UnmarshalTTLV(buildResponse(rp, reqTree), &rm) }) == nil
 		}
 	}
-	if decodable && len(rp.Items) >= 1 && rp.Items[0].Status == 1 && rp.HeaderCount == 0 && len(rp.Items) == 1 {
-		if s := checkErrorCarries(cerr, rp.Items[0]); s != "" {
-			return s, fmt.Errorf("%s returned (%T, %v) for failed item %+v", c.Call, got, cerr, rp.Items[0])
+	if decodable {
+		// whatever the counts: every failed item of a decodable response is in the error
+		for i, ip := range rp.Items {
+			if ip.Status == 1 {
+				if s := checkErrorCarries(cerr, ip); s != "" {
+					return s, fmt.Errorf("%s returned (%T, %v) for failed item %d %+v (response with %d items, header delta %d)", c.Call, got, cerr, i, ip, len(rp.Items), rp.HeaderCount)
+				}
+			}
 		}
 	}
 	if cerr != nil {
